@@ -120,12 +120,18 @@ def r3(c):
     cmd = one(cmd, 'commands.recv')
     acc = one([cs for cs in b.calls() if cs.callee.endswith('TcpListener::accept')], 'accept')
     loop_nodes = b.cycle_of(cmd.node) or set()
+    rets = {('b', i) for i in b.return_blocks()}
+
+    def leaves(e):
+        """from this edge the task function returns (not merely: never comes back - a panic arm does that too)"""
+        rs = b.reach_set(e)
+        return not (rs & {cmd.node, acc.node}) and bool(rs & rets)
     none = q.outcomes(b, cmd).get('None', [])
-    c.ob('handle-dropped', len(none) == 1 and not (b.reach_set(none[0]) & {cmd.node, acc.node}), 'a dropped handle (None) leaves the loop: the task ends, dropping the tracker (all session senders) and the listener', '', cmd.loc())
+    c.ob('handle-dropped', len(none) == 1 and leaves(none[0]), 'a dropped handle (None) leaves the loop: the task ends, dropping the tracker (all session senders) and the listener', '', cmd.loc())
     sd = [e for e, v, info in b.variant_edges(SC) if v == 'Shutdown' and q.sem(b, info['place']).kind == 'call' and q.sem(b, info['place']).cs is cmd]
-    c.ob('shutdown-command', len(sd) == 1 and not (b.reach_set(sd[0]) & {cmd.node, acc.node}), 'ServerCommand::Shutdown leaves the loop', str(sd), cmd.loc())
+    c.ob('shutdown-command', len(sd) == 1 and leaves(sd[0]), 'ServerCommand::Shutdown leaves the loop', str(sd), cmd.loc())
     ae = q.outcomes(b, acc).get('Err', [])
-    c.ob('accept-error', len(ae) == 1 and not (b.reach_set(ae[0]) & {cmd.node, acc.node}), 'an accept error leaves the loop', '', acc.loc())
+    c.ob('accept-error', len(ae) == 1 and leaves(ae[0]), 'an accept error leaves the loop', '', acc.loc())
     rm = one(b.calls(TR + '::remove'), 'tracker.remove')
     cl = b.op_closure(rm.args[1])
     rx = [cs for cs in b.calls('tokio::sync::mpsc::bounded::Receiver::recv') if cs is not cmd]
@@ -172,7 +178,7 @@ def r4(c):
     run = P.fn('rodbus::server::task::SessionTask::run')
     r1_ = one(run.calls('rodbus::server::task::SessionTask::run_one'), 'run_one')
     e = q.outcomes(run, r1_).get('Err', [])
-    c.ob('run/ends', len(e) == 1 and r1_.node not in run.reach_set(e[0]), 'SessionTask::run returns on the first error', '', r1_.loc())
+    c.ob('run/ends', len(e) == 1 and r1_.node not in run.reach_set(e[0]) and bool(run.reach_set(e[0]) & {('b', i_) for i_ in run.return_blocks()}), 'SessionTask::run returns on the first error', '', r1_.loc())
 
 
 @rule('C15', 'R15.5', 'per-session state: framing objects and the physical layer belong to one session')
